@@ -21,7 +21,7 @@ CHAPTERS = [("C", ct, tuple(arts)) for ct in ("", "Kapitel Ä")
             for arts in ([()] + [(a,) for a in CH_ARTS] + [(a, b) for a in CH_ARTS for b in CH_ARTS])]
 ITEMS = ARTICLES + CHAPTERS
 LICENSE = {"name": "L", "mw_rights_text": "free", "mw_rights_url": "http://l.example/", "z": {"b": 1, "a": 2}}
-FIELDSETS = [(t, s, e) for t in (None, "T ü") for s in (None, "sub") for e in (None, "ed", ("lic", "ed"))]
+FIELDSETS = [(t, s, e) for t in (None, "T ü") for s in (None, "sub") for e in (None, "ed", ("lic", "ed"), ("wikis", "ed"))]
 COORDS = {"base_url": "http://wiki.example/w/", "script_extension": ".php", "login_credentials": "u:p:d"}
 
 
@@ -74,7 +74,14 @@ def build(spec):
         c.title = t
     if s is not None:
         c.subtitle = s
-    if isinstance(e, tuple):
+    if isinstance(e, tuple) and e[0] == "wikis":
+        # a multi-wiki metabook: typed WikiConf entries (and the other typed helper objects) nested in the collection
+        c.wikis.append(metabook.WikiConf(ident="en", baseurl="http://en.example/w/"))
+        c.wikis.append(metabook.WikiConf(ident="de", baseurl="http://de.example/w/", format="nuwiki"))
+        c.licenses.append(metabook.License(name="L2", wikitext="free"))
+        c.sources = [metabook.Source(name="S", url="http://s.example/")] if hasattr(metabook, "Source") else []
+        c.editor = e[1]
+    elif isinstance(e, tuple):
         # an untyped (plain dict) entry nested in the metabook, as MediaWiki's Collection extension sends for licenses
         c.licenses.append(dict(LICENSE))
         c.editor = e[1]
@@ -92,6 +99,17 @@ def plain(obj):
     if isinstance(obj, (list, tuple)):
         return [plain(x) for x in obj]
     return obj
+
+
+def typed(obj):
+    """the classes of every nested value (typed objects must come back as typed objects, not as look-alike dicts)"""
+    if hasattr(obj, "_json"):
+        return (type(obj).__name__, tuple(sorted((k, typed(v)) for k, v in obj.__dict__.items() if not k.startswith("_") and v is not None)))
+    if isinstance(obj, dict):
+        return ("dict", tuple(sorted((k, typed(v)) for k, v in obj.items())))
+    if isinstance(obj, (list, tuple)):
+        return ("list", tuple(typed(x) for x in obj))
+    return type(obj).__name__
 
 
 def reverse_keys(x):
@@ -175,6 +193,8 @@ class C13(InputProp):
             viol.append({"sig": "roundtrip-type", "msg": "loads(dumps(m)) is a %s" % type(mb2).__name__})
         elif p2 != p0:
             viol.append({"sig": "roundtrip-unequal", "msg": "loads(dumps(m)) = %r, m = %r" % (p2, p0)})
+        elif typed(mb2) != typed(mb):
+            viol.append({"sig": "roundtrip-types", "msg": "loads(dumps(m)) has the same data but other classes: %r vs %r" % (typed(mb2), typed(mb))})
         else:
             # same nesting and order with real objects
             def shape(o):
